@@ -159,7 +159,8 @@ def deep(a, claripy, memo=None):
             k = id(a)
             if k in memo:
                 return memo[k]
-        anns = sorted(json.dumps([type(x).__name__, sorted((kk, repr(vv)) for kk, vv in vars(x).items())]) for x in a.annotations)
+        # in order: the annotation tuple is ordered (append_annotation vs insert_annotation give different expressions)
+        anns = [json.dumps([type(x).__name__, sorted((kk, repr(vv)) for kk, vv in vars(x).items())]) for x in a.annotations]
         r = json.dumps([type(a).__name__, a.op, getattr(a, "length", None), [deep(x, claripy, memo) for x in a.args], anns])
         if memo is not None:
             memo[id(a)] = r
@@ -380,7 +381,7 @@ def execute(rec):
                     # rewriter's business (C01/C07), not hash-consing.  A spec that does not even reproduce itself
                     # while its first build is alive is not judged by oracle (a).
                     a2 = build(op["spec"], claripy)
-                    if deep(a2, claripy) != pristine[k]:
+                    if deep(a2, claripy) != pristine[k] and not rec["config"].get("strict"):
                         pristine[k] = False
                         stats["self_unstable_specs"] += 1
                     del a, a2
